@@ -643,3 +643,67 @@ func guardIntact(g []byte) bool {
 	}
 	return true
 }
+
+// cloneSeg routes a block of a history through Clone/Append (with a discarded sibling clone
+// of the same parent that receives the same calls one byte later), for the worlds whose
+// property is about "any sequence of emitter calls".
+type cloneSeg struct {
+	orig *asm.Emitter
+	sib  *asm.Emitter
+}
+
+func (cs *cloneSeg) active() bool { return cs.orig != nil }
+
+// begin replaces *e by a clone of it. Returns a panic message if Clone panicked.
+func (cs *cloneSeg) begin(e **asm.Emitter, room int) string {
+	var c *asm.Emitter
+	if p, pv := sim.RecoverLib(func() { c = (*e).Clone(make([]byte, room)) }); p || c == nil {
+		return "Clone panicked: " + sim.PanicString(pv)
+	}
+	sim.RecoverLib(func() { cs.sib = (*e).Clone(make([]byte, room+8)) })
+	if cs.sib != nil {
+		asmApply(cs.sib, sim.Op{K: "ins", S: "NOP"})
+	}
+	cs.orig, *e = *e, c
+	return ""
+}
+
+func (cs *cloneSeg) mirror(op sim.Op) {
+	if cs.sib != nil {
+		asmApply(cs.sib, op)
+	}
+}
+
+// end appends the clone back and restores *e. Returns the bytes the block contributed.
+func (cs *cloneSeg) end(e **asm.Emitter) (block []byte, msg string) {
+	c := *e
+	block = append([]byte{}, c.Bytes()...)
+	if p, pv := sim.RecoverLib(func() { cs.orig.Append(c) }); p {
+		msg = "Append panicked: " + sim.PanicString(pv)
+	}
+	*e, cs.orig, cs.sib = cs.orig, nil, nil
+	return
+}
+
+// withCloneSegment inserts clone/append markers around a random block of ops that contains
+// none of the kinds in avoid.
+func withCloneSegment(r *sim.Rand, ops []sim.Op, avoid map[string]bool) []sim.Op {
+	if len(ops) < 2 {
+		return ops
+	}
+	a := r.Intn(len(ops))
+	b := a
+	for b < len(ops) && !avoid[ops[b].K] && b-a < 12 {
+		b++
+	}
+	if b == a {
+		return ops
+	}
+	var out []sim.Op
+	out = append(out, ops[:a]...)
+	out = append(out, sim.Op{K: "clone"})
+	out = append(out, ops[a:b]...)
+	out = append(out, sim.Op{K: "append"})
+	out = append(out, ops[b:]...)
+	return out
+}
